@@ -392,6 +392,12 @@ def limits_family():
             " && ".join(f"vm.k{i}" for i in range(32)), " || ".join(f"vm.k{i}" for i in range(32)), " && ".join(["(1 / 0 > 0)"] * 32), "[" + ", ".join(["1"] * 32) + "].all(v, v.x)",
             "[" + ", ".join(["1"] * 32) + "].exists(v, v.x)", "[" + ", ".join(["1"] * 32) + "].all(v, v)"]
     odd += ['.size("abc")', ".string(1)", '.int("1")', ".size([1, 2]) + 1", ".vi", ".vi + 1", ".vm.a", ".nope", ".f(1)", '[1].map(v, .size("ab"))']
+    # non-finite doubles (computed: they have no literal) in every position that takes a number
+    for x in ("(1.0 / 0.0)", "(-1.0 / 0.0)", "(0.0 / 0.0)"):
+        odd += [t.replace("X", x) for t in ("vl[X]", "vm[X]", "vs[X]", "[1, 2, 3][X]", "{X: 1}", "{X: 1}[X]", "X in vl", "X in vm", "X in [X]", "int(X)", "uint(X)", "string(X)", "double(X)", "bool(X)", "bytes(X)",
+                                            "duration(X)", "timestamp(X)", "type(X)", "X + vi", "vi + X", "X * vd", "X % X", "X / X", "X - X", "X == X", "X < X", "X < vi", "vi < X", "vu < X", "-X", "!X", "X ? 1 : 2",
+                                            "size(X)", "X.size()", "vt + X", "vr * X", "vt.getHours(X)", "vs.matches(X)", "vs.contains(X)", "[X].map(v, vl[v])", "[X].exists(v, v > 1.0)", "vb && vl[X] == 1", "false && vl[X] == 1", "true || vl[X] == 1",
+                                            "vl[int(X)]", "vl[uint(X)]", "string(int(X))")]
     for o in odd:
         out.append(("raw", None, o))
         out.append(("raw", None, f"({o}) == 1 || true"))
